@@ -33,7 +33,7 @@ NCHUNK = 16
 FAMILIES = {
     "C01": ["dec"],
     "C02": ["dec"],
-    "C03": ["dec", "stream", "txt", "nid", "ck", "hist", "size", "acc", "eq"],
+    "C03": ["dec", "stream", "txt", "nid", "ck", "hist", "size", "acc", "eq", "deep"],
     "C04": ["dec", "hist", "acc"],
     "C05": ["hist", "size", "acc", "eq"],
     "C06": ["hist", "size"],
@@ -182,6 +182,18 @@ def campaign(prop, fam, tier, seed, workdir):
     t0 = time.time()
     rc, out = run([HBIN, "gen", fam, tier, str(seed), prefix, str(NCHUNK)], timeout=7200)
     if rc != 0:
+        # the process died (a stack overflow or abort cannot be caught): when the family wrote its case
+        # scripts first, the first case without a completed trace is the culprit
+        cases_file = prefix + ".cases"
+        if os.path.exists(cases_file):
+            done = 0
+            tr = prefix + ".0.trace"
+            if os.path.exists(tr):
+                done = sum(1 for l in open(tr) if l.startswith("end"))
+            scripts = open(cases_file).read().split("end\n")
+            culprit = (scripts[done] + "end\n") if done < len(scripts) else ""
+            return {"fam": fam, "abort": {"rc": rc, "case_index": done, "script": culprit,
+                                          "stderr": out[-400:]}}
         return {"fam": fam, "error": "harness failed: " + out[-1500:]}
     traces = sorted(os.path.join(workdir, f) for f in os.listdir(workdir)
                     if f.startswith(f"{fam}-{seed}.") and f.endswith(".trace"))
@@ -376,6 +388,17 @@ def main():
 
     broken_tie = []
     for r in results:
+        if "abort" in r:
+            rp = os.path.join(workdir, f"violation-abort-{r['fam']}.case")
+            with open(rp, "w") as fh:
+                fh.write(f"# the process executing this case was killed (rc={r['abort']['rc']}): {r['abort']['stderr'].strip()[-200:]}\n")
+                fh.write(r["abort"]["script"])
+            if prop == "C03":
+                violations.append(("the library aborted the process (stack overflow / abort) instead of returning an error", rp,
+                                   f"PROP C03 FAIL pred=no_abort family={r['fam']} case_index={r['abort']['case_index']}"))
+            else:
+                broken_tie.append(("harness process aborted", None, f"family {r['fam']} rc={r['abort']['rc']}"))
+            continue
         if "error" in r:
             broken_tie.append(("harness-or-driver-error", None, r["error"]))
         seen = set()
